@@ -507,9 +507,12 @@ class ERun:
     deadlock: bool
     pruned: bool
     world: Any = None
+    dict_problems: tuple = ()        # what a call did to the caller's input_args dict
 
 
-def execute(spec, nparts, scheduler=None, on_choice_point=None, timeout=20.0) -> ERun:
+def execute(spec, nparts, scheduler=None, on_choice_point=None, timeout=20.0, input_dicts=None) -> ERun:
+    """one call of the real executor per rank; input_dicts[r] (default: fresh dicts) is handed
+    to rank r AS IS (the same object): what the call does to it is recorded"""
     from pytato.distributed.execute import execute_distributed_partition
     n = spec["nranks"]
     scheduler = scheduler or fakempi.Scheduler()
@@ -531,17 +534,27 @@ def execute(spec, nparts, scheduler=None, on_choice_point=None, timeout=20.0) ->
         return True
     world.on_choice_point = cp
 
+    dict_problems: list = []
+
     def fn(comm):
         part = nparts[comm.rank]
         prgs = make_programs(world, comm.rank, part)
-        res = execute_distributed_partition(part, prgs, None, comm,
-                                            input_args=G.input_args(spec, comm.rank))
+        inp = input_dicts[comm.rank] if input_dicts is not None else G.input_args(spec, comm.rank)
+        before = dict(inp)
+        try:
+            res = execute_distributed_partition(part, prgs, None, comm, input_args=inp)
+        finally:
+            gone = sorted(set(before) - set(inp))
+            extra = sorted(set(inp) - set(before))
+            swapped = sorted(k for k in before if k in inp and inp[k] is not before[k])
+            if gone or extra or swapped:
+                dict_problems.append(f"rank{comm.rank}:removed{gone}:added{extra}:replaced{swapped}")
         world.log("finish", comm.rank)
         return res
 
     outs = world.run(fn)
     return ERun(outs, list(world.events), list(world.anomalies), world.leftover(),
-                scheduler.choices, world.deadlock, world.pruned, world)
+                scheduler.choices, world.deadlock, world.pruned, world, tuple(sorted(dict_problems)))
 
 
 def state_key(world):
@@ -586,7 +599,7 @@ def check_exec(run: ERun, ref) -> str | None:
     if msgs or recvs:
         return f"leftover:messages{msgs}:receives{recvs}"
     if ref is None:         # no reference solution (invalid program): values are not judged
-        return None
+        return ("caller-input-dict-modified:" + ";".join(run.dict_problems[:3])) if run.dict_problems else None
     for r, o in enumerate(run.outcomes):
         want = ref[r]
         got = o.value
@@ -599,6 +612,9 @@ def check_exec(run: ERun, ref) -> str | None:
             if g.shape != want[nm].shape or not (np.array_equal(g, want[nm])
                                                  or (g.dtype.kind in "fc" and np.allclose(g, want[nm], rtol=1e-5))):
                 return f"wrong-value:rank{r}:{nm}"
+    if run.dict_problems:
+        # the call was right, but it changed the dict object the caller passed as input_args
+        return "caller-input-dict-modified:" + ";".join(run.dict_problems[:3])
     return None
 
 
